@@ -18,6 +18,11 @@ def leaf_key(e):
     return sym.show(e)
 
 
+class VName(str):
+    """variant name that remembers the enum it belongs to (compares and hashes as the bare name)"""
+    path = None
+
+
 def evaluate(e, env, bits=64):
     """env: dict leaf-key -> value (keys starting with '@fn:' map a callee name to a python callable).
     Raises Uneval when a leaf is missing or an operator is not modelled."""
@@ -175,12 +180,14 @@ def _evaluate(e, env, bits=64):
     if k == "agg" and e[1].startswith("closure:"):
         return ("$closure", e[1][len("closure:"):], tuple(evaluate(a, env, bits) for a in e[2]))
     if k == "agg" and "::" in e[1]:
+        vn = VName(e[1].rsplit("::", 1)[-1])
+        vn.path = e[1].rsplit("::", 1)[0]
         if len(e[2]) == 1:
             try:
-                return ("$variant", e[1].rsplit("::", 1)[-1], evaluate(e[2][0], env, bits))
+                return ("$variant", vn, evaluate(e[2][0], env, bits))
             except Uneval:
                 pass
-        return ("$variant", e[1].rsplit("::", 1)[-1])
+        return ("$variant", vn)
     if k == "discr":
         v = evaluate(e[1], env, bits)
         if isinstance(v, int) and not isinstance(v, bool) and env.get("@enum_as_int"):
@@ -192,6 +199,10 @@ def _evaluate(e, env, bits=64):
             prog = env.get("@prog")
             if prog is not None:
                 hits = [(a, i) for a in prog.adts.values() if a["kind"] == "enum" for i, vv in enumerate(a["variants"]) if vv["name"] == v[1]]
+                if len(hits) > 1 and getattr(v[1], "path", None) in prog.adts:
+                    # the variant name alone is ambiguous (Flavor::Empty / FindResult::Empty): the aggregate's own path decides
+                    a = prog.adts[v[1].path]
+                    hits = [(a, i) for i, vv in enumerate(a["variants"]) if vv["name"] == v[1]] if a["kind"] == "enum" else hits
                 if len(hits) == 1:
                     a, i = hits[0]
                     return a["discrs"][i] if a.get("discrs") and i < len(a["discrs"]) else i
